@@ -160,7 +160,18 @@ class ConfidenceMonitor:
             if not np.isfinite(g).all():
                 p = np.argwhere(~np.isfinite(g))[0]
                 # signature: is the raw ambiguity (as the kernel counts it) constant over the image after clipping?
-                raw, _ = self._counts(self._norm(cv), etas64(cfgp["eta_max"], cfgp["eta_step"]), 0.0, True)
+                # (counted by the kernel itself, in its float32 arithmetic and with its sign convention for similarity
+                # measures: a float64 recount can tell apart costs that are equal for the kernel, e.g. zncc against a
+                # linear ramp, where every disparity has the same cost up to the last bit)
+                try:
+                    from pandora.cost_volume_confidence.ambiguity import Ambiguity
+
+                    a32 = np.ascontiguousarray(cv, dtype=np.float32)
+                    raw = np.asarray(Ambiguity.compute_ambiguity(
+                        -a32 if tmeasure == "max" else a32, np.float32(0.0), np.float32(cfgp["eta_max"]),
+                        np.float32(cfgp["eta_step"])), dtype=np.float64)
+                except Exception:  # noqa
+                    raw, _ = self._counts(self._norm(cv), etas64(cfgp["eta_max"], cfgp["eta_step"]), 0.0, True)
                 cl = np.clip(raw, np.percentile(raw, 1.0), np.percentile(raw, 99.0))
                 self.v("ambiguity_not_finite", ev, side, pixel=p.tolist(),
                        sig={"normalization": True, "raw_ambiguity_constant_after_clipping": bool(cl.max() == cl.min())})
